@@ -1,6 +1,7 @@
 """property id -> check function(Program, tier) -> (Result, technique)"""
 import props_solver as ps
 import props_wiring as pw
+import props_profiles as pp
 
 CHECKS = {
     "C01": ps.check_C01,
@@ -10,8 +11,10 @@ CHECKS = {
     "C05": ps.check_C05,
     "C06": ps.check_C06,
     "C07": ps.check_C07,
+    "C09": pp.check_C09,
     "C10": ps.check_C10,
     "C11": ps.check_C11,
     "C13": pw.check_C13,
     "C16": pw.check_C16,
+    "C17": pw.check_C17,
 }
